@@ -12,8 +12,8 @@ Vocabulary (defined in `Srtla/Lemmas/Control.lean`, all with the property's lite
 * `InRange t`        := `1000 ≤ t ∧ t ≤ 60000`
 * `ExactlyOne resp`  := `resp.result.isSome = !resp.error.isSome`
 * `code? o`          := the `error.code` of an optional response
-* `ShapeOK line o`   := blank ⇒ `o = none`; unparsable ⇒ `o` is an error `-32700` with `id = null`
-                        and no result; request with `id = some i` ⇒ `o = some resp`, `resp.id = i`,
+* `ShapeOK line o`   := blank ⇒ `o = none`; unparsable ⇒ `o` is an error `-32700` with `id = null`,
+                        `jsonrpc = "2.0"` and no result; request with `id = some i` ⇒ `o = some resp`, `resp.id = i`,
                         `ExactlyOne resp`; request without id ⇒ `o = none`
 * `Pointwise R xs ys` := same length and `R` at every index
 * `builtin`          := the six stdin methods; `BadParams m p` := the setter `m` finds no
@@ -647,6 +647,39 @@ example :
       (.request ⟨"2.0", "get_subscription_count", .null, some .null⟩)).2 = some (-32601) ∧
     code? (dispatchAsync ⟨none, none⟩ Config.new (some Ctx.init)
       (.request ⟨"2.0", "get_subscription_count", .null, some .null⟩)).2.2 = none := by
+  decide
+
+/-! ## Round 2: every response is a JSON-RPC **2.0** response -/
+
+/-- The version constant regenerated from `src/control.rs` is the literal `"2.0"` (it is both what
+a request must carry and what every response carries). -/
+theorem C18_jsonrpc_version_pin : Control.JSONRPC_VERSION = "2.0" := rfl
+
+/-- **Every response carries `"jsonrpc": "2.0"`** — whatever the line (unparsable, wrong version,
+unknown method, bad parameters, success), the environment, the configuration, for both entry points
+with or without a `SubscriptionContext`.  (`Response.jsonrpc` is the member the real `Response`
+serialises first; the harness compares it with the member found in the real output.) -/
+theorem C18_response_is_jsonrpc_2 (env : Env) (c : Config) (ctx : Option Ctx) (l : Line) (resp : Response) :
+    ((dispatchInner env c l).2 = some resp → resp.jsonrpc = "2.0") ∧
+    ((dispatchAsync env c ctx l).2.2 = some resp → resp.jsonrpc = "2.0") :=
+  ⟨dispatchInner_jsonrpc env c l resp, dispatchAsync_jsonrpc env c ctx l resp⟩
+
+/-- … hence along every sequence of lines, each under its own environment, from any state. -/
+theorem C18_response_is_jsonrpc_2_run (c : Config) (ctx : Option Ctx) (ls : List (Env × Line)) (resp : Response) :
+    (some resp ∈ (runSync c ls).2 → resp.jsonrpc = "2.0") ∧
+    (some resp ∈ (runAsync c ctx ls).2.2 → resp.jsonrpc = "2.0") :=
+  ⟨runSync_jsonrpc c ls resp, runAsync_jsonrpc c ctx ls resp⟩
+
+/-- Non-vacuity: a success, a version error (the REQUEST said "1.0", the response still says "2.0"),
+a parse error and an unknown method all produce a response, and its version member is "2.0". -/
+example :
+    ((dispatchInner ⟨none, none⟩ Config.new (statusReq .null (.str "a"))).2.map (·.jsonrpc)) = some "2.0" ∧
+    ((dispatchInner ⟨none, none⟩ Config.new
+      (.request ⟨"1.0", "get_status", .null, some (.str "a")⟩)).2.map (fun r => (r.jsonrpc, r.error.map (·.code))))
+        = some ("2.0", some (-32600)) ∧
+    ((dispatchInner ⟨none, none⟩ Config.new .unparsable).2.map (·.jsonrpc)) = some "2.0" ∧
+    ((dispatchAsync ⟨none, none⟩ Config.new (some Ctx.init)
+      (.request ⟨"2.0", "nope", .null, some .null⟩)).2.2.map (·.jsonrpc)) = some "2.0" := by
   decide
 
 end Srtla.Props.C18
